@@ -637,23 +637,31 @@ def main_wraps(chk, P):
 def documented_valid(chk, P):
     repo = P.repo
     txt = open(os.path.join(repo, "docs", "reference", "potable_input.rst"), encoding="utf-8").read()
-    i = txt.index(".. _ref-potable-input-tabulation-target:")
-    j = txt.index(":Description:", i)
-    block = txt[i:j]
+    try:
+        i = txt.index(".. _ref-potable-input-tabulation-target:")
+        j = txt.index(":Description:", i)
+        block = txt[i:j]
+        vo = block.index(":Valid Options:")
+    except ValueError:
+        raise AnalysisError("the layout of docs/reference/potable_input.rst is not recognised (target entry)")
     targets = []
-    for m in re.finditer(r"``([^`]+)``", block[block.index(":Valid Options:"):]):
+    for m in re.finditer(r"``([^`]+)``", block[vo:]):
         targets.extend(m.group(1).split("|"))
+    if len(targets) < 12:
+        raise AnalysisError("the documented list of targets is not recognised (%d entries found)" % len(targets))
     I = W.make_interp(P)
     mod = P.module("atsim.potentials.config._tabulation_factories")
     table = I.module_global(mod, "TABULATION_FACTORIES")
     keys = set(k.v for k, _ in table.items.values())
     bad = [t for t in targets if W.resolve_target(P, t) not in keys]
     chk.ob("C16.E10", "every documented target (%d: %s) resolves to a registered factory" % (len(targets), ", ".join(targets)),
-           not bad and len(targets) >= 12, site=mod.relpath + " TABULATION_FACTORIES", found=bad or None, expect="all accepted",
+           not bad, site=mod.relpath + " TABULATION_FACTORIES", found=bad or None, expect="all accepted",
            key="C16.E10|targets")
     # interpolation
     m = re.search(r"interpolation\n-+\n\n:Item: ``interpolation``\n:Format: (.*)\n", txt)
     doc_interp = re.findall(r"``([^`]+)``", m.group(1)) if m else []
+    if not doc_interp:
+        raise AnalysisError("the documented interpolation types are not recognised in docs/reference/potable_input.rst")
     tbcls = P.cls("atsim.potentials.config._table_form_builder", "Table_Form_Builder")
     tt_ = I.module_global(P.module(COMMON), "TableFormTuple")
     refused = {}
@@ -676,14 +684,16 @@ def documented_valid(chk, P):
                         [PyObjV(Cfg(ListV([], "list"), ListV([], "list"), missing=True))], {"register_standard": TRUE, "register_pymath_functions": TRUE}, None)
     have = set(x.v for x in J.as_iterable(J.getattr(reg, "registered")).items)
     missing = sorted("as." + n for n in sigs if "as." + n not in have)
-    chk.ob("C16.E10", "every form with a ':potable signature:' in the manual (%d) is registered" % len(sigs), not missing and len(sigs) >= 14,
+    chk.ob("C16.E10", "every form with a ':potable signature:' in the manual (%d) is registered" % len(sigs), not missing,
            site=P.cls("atsim.potentials.config._potential_form_registry", "Potential_Form_Registry").site_of("__init__"), found=missing or None,
            expect="all registered", key="C16.E10|forms")
     txt3 = open(os.path.join(repo, "docs", "reference", "potential_modifiers.rst"), encoding="utf-8").read()
     doc_mods = set(re.findall(r"^\.\. _modifier-(\w+):", txt3, re.M))
     mr = I.instantiate(P.cls("atsim.potentials.config._modifier_registry", "Modifier_Registry"), [], {}, None)
+    if len(doc_mods) < 5:
+        raise AnalysisError("the layout of docs/reference/potential_modifiers.rst is not recognised (%d labels found)" % len(doc_mods))
     regm = F.registered_modifiers(I, mr, doc_mods)
-    chk.ob("C16.E10", "every documented modifier %s is registered" % sorted(doc_mods), doc_mods <= regm and len(doc_mods) >= 5,
+    chk.ob("C16.E10", "every documented modifier %s is registered" % sorted(doc_mods), doc_mods <= regm,
            site=P.cls("atsim.potentials.config._modifier_registry", "Modifier_Registry").site_of("_register_standard"), found=sorted(regm),
            expect=sorted(doc_mods), key="C16.E10|modifiers")
 
